@@ -1381,6 +1381,7 @@ Proof.
         try match goal with H : k_st _ = _ |- _ => rewrite H in *; cbn in *; try discriminate; try reflexivity end;
         try assumption.
       all: try (destruct (k_final x); match goal with H : k_st _ = _ |- _ => rewrite H; reflexivity end).
+      Show.
       all: cbn in Ho; discriminate.
   - destruct (k_released x) eqn:E; [|reflexivity].
     rewrite (released_ended _ _ _ _ _ _ _ _ _ Hr k x Hx E) in Ho. discriminate.
